@@ -27,6 +27,7 @@ import (
 
 	"verif.local/engine/evidence"
 	"verif.local/engine/explore"
+	"verif.local/engine/vpriv"
 	"verif.local/engine/vsched"
 )
 
@@ -211,7 +212,17 @@ func (w *c07World) ent(p *udpSessionEntry) *c07Ent {
 
 // peek reads the session table without taking its lock: only one thread runs at a time under the
 // scheduler, so this is a pure observation that adds no scheduling point.
-func (w *c07World) peek(id uint32) *udpSessionEntry { return w.m.m[id] }
+func (w *c07World) peek(id uint32) *udpSessionEntry { return w.table()[id] }
+
+// table is the manager's private session table, found by TYPE (its only
+// map[uint32]*udpSessionEntry) so that a rename of the field does not break the harness build.
+func (w *c07World) table() map[uint32]*udpSessionEntry {
+	t, ok := vpriv.FieldByType[map[uint32]*udpSessionEntry](w.m)
+	if !ok {
+		w.e.Fail("HARNESS-UNDECIDED: the session manager has no (single) map[uint32]*udpSessionEntry table any more; the C07 harness reads it for its table oracles")
+	}
+	return t
+}
 
 func (w *c07World) latestSock(id uint32) *c07Sock {
 	for i := len(w.socks) - 1; i >= 0; i-- {
@@ -654,14 +665,14 @@ func (w *c07World) checkSweepClose(ev *c07Ev) {
 func (w *c07World) quiescent(final bool) {
 	e := w.e
 	T := e.Now()
-	ids := make([]uint32, 0, len(w.m.m))
-	for id := range w.m.m {
+	ids := make([]uint32, 0, len(w.table()))
+	for id := range w.table() {
 		ids = append(ids, id)
 	}
 	sort.Slice(ids, func(i, j int) bool { return ids[i] < ids[j] })
 	inTable := map[*udpSessionEntry]bool{}
 	for _, id := range ids {
-		p := w.m.m[id]
+		p := w.table()[id]
 		inTable[p] = true
 		en := w.ent(p)
 		if p.closed || en.closes > 0 {
